@@ -16,7 +16,7 @@ pub static DEF: PropDef = PropDef {
     id: "C19",
     engine: "wfsim panic",
     level: "exploration",
-    rule: "one run = 1-3 tasks (real OS threads, one baton), each executing a generated structured program of <= 7 (quick) / <= 10 (thorough) steps over {enable, disable, install hook, set fallback Continue, query backtrace, catch_panic{..} nested <= 4, panic with a unique message}, interleaved by the seeded scheduler between steps and at the in-repo points inside panic_catcher_set_hook (after flag load / take_hook / set_hook) and catch_panic (after start / after catch_unwind), followed after a barrier by the epilogue `disable; panic` on every task; all observations are compared with the ModelCatcher (DESIGN §11) and a per-run sentinel hook installed before the catcher's; non-trivial = at least one panic fired and (>= 2 tasks with a pre-emption, or a nested catch); distinct = distinct choice tapes",
+    rule: "one run = 1-3 tasks (real OS threads, one baton), each executing a generated structured program of <= 7 (quick) / <= 10 (thorough) steps over {enable, disable, install hook, set fallback Continue, query backtrace, catch_panic{..} nested <= 4 (optionally owning a value whose Drop enters a frame, or enters a frame that catches a panic of its own, while the outer panic unwinds), panic with a unique message (String / &'static str / non-string payload; long, multi-byte, control-character shapes), a panic recovered by a plain catch_unwind, bursts of caught panics}, interleaved by the seeded scheduler between steps and at the in-repo points inside panic_catcher_set_hook (after flag load / take_hook / set_hook) and catch_panic (after start / after catch_unwind), followed after a barrier by the epilogue `disable; panic` on every task; all observations are compared with the ModelCatcher (DESIGN §11) and a per-run sentinel hook installed before the catcher's; non-trivial = at least one panic fired and (>= 2 tasks with a pre-emption, or a nested catch); distinct = distinct choice tapes",
     runs_quick: 300_000,
     runs_thorough: 8_000_000,
     directed: FIXED,
@@ -29,7 +29,7 @@ pub static DEF: PropDef = PropDef {
         "while some task is between take_hook and set_hook the process hook is std's default by construction: no sentinel / message-content expectation is attached to panics fired in that window",
         "PANIC_CATCHER_HOOK_SET is reset between runs through the guarded test-only hook",
     ],
-    required_probes: &["c19.panic_caught", "c19.panic_escaped", "c19.nested_noncatching_outer", "c19.install", "c19.query", "c19.epilogue", "c19.install_lock_contended", "c19.transparent", "c19.static_payload", "c19.nonstring_payload", "c19.preempted_inside_previous_hook", "c19.catch_during_unwind", "c19.caught_burst"],
+    required_probes: &["c19.panic_caught", "c19.panic_escaped", "c19.nested_noncatching_outer", "c19.install", "c19.query", "c19.epilogue", "c19.install_lock_contended", "c19.transparent", "c19.static_payload", "c19.nonstring_payload", "c19.preempted_inside_previous_hook", "c19.catch_during_unwind", "c19.caught_burst", "c19.panic_caught_during_unwind", "c19.recovered_panic"],
     extra: None,
 };
 
